@@ -84,6 +84,17 @@ class C01(Prop):
                 chunks = gen.apply_cuts(s, cuts)
                 lines.append("strm never vec - " + ",".join("a:" + gen.hexs(ch) for ch in chunks))
         yield "incremental-and-never-stream", lines
+        # partly consumed one-shot iterators: Display / to_string / into_vec / is_empty / extend
+        lines = []
+        for i in range(n // 2):
+            s = gen.grammar_stream(rng, pieces=rng.choice([2, 4, 8]), valid_utf8=True)
+            if rng.randrange(2):
+                s = s + [0x1B, 0x5B, 0x33] + [rng.choice([0x0A, 0x09, 0x0D])] + list(b"1mX") + gen.utf8_text(rng, 3)
+            k = rng.randrange(0, 4)
+            lines.append("ssd %s %d" % (gen.hexs(s), k))
+            t = gen.grammar_stream(rng, pieces=2)
+            lines.append("sbx %s %s %d" % (gen.hexs(gen.grammar_stream(rng, pieces=3)), gen.hexs(t), k))
+        yield "partly-consumed-iterators", lines
 
     def observe(self, ctx, name, lines, results):
         """a never-colour stream fed by write_all delivers exactly Spec/Strip of the whole input"""
